@@ -589,7 +589,9 @@ func init() {
 	register(&core.Check{
 		ID:          "C10",
 		Amplify:     amplifyAPI,
-		Designs:     histDesigns("assume"),
+		Designs: append(histDesigns("assume"),
+			core.Design{Name: "incremental-keep", Module: "Incremental", Cfg: "Incremental_keep.cfg", Workers: 6, XmxMB: 4000, Timeout: 5 * time.Minute},
+			core.Design{Name: "incremental-wipe", Module: "Incremental", Cfg: "Incremental_wipe.cfg", Workers: 1, XmxMB: 2000, Timeout: 5 * time.Minute, ExpectViolation: "RefinesAPI"}),
 		TraceModule: "APITrace",
 		Cases: func(env *core.Env) []core.Case {
 			r := env.Rand
